@@ -410,3 +410,31 @@ func TestC02_Splices(t *testing.T) {
 		}
 	})
 }
+
+// FuzzC02_Tamper (thorough tier): coverage-guided mutation of two signed
+// tokens; whatever the fuzzer turns them into must not verify with the
+// original signer's key unless the covered bytes are unchanged.
+func FuzzC02_Tamper(f *testing.F) {
+	var origs []signedTok
+	for i, alg := range []int64{icose.EdDSA, icose.ES256} {
+		st, err := signModel(baseValid([]Prof{P1, P2}[i], 1), keyFor(alg, 0))
+		if err != nil {
+			f.Fatalf("VERIF-INFRA: %v", err)
+		}
+		origs = append(origs, st)
+		f.Add(st.Tok)
+		// seeds that keep the structure but alter one part
+		f.Add(icbor.Encode(icose.Envelope(st.Parts.Protected, nil, append(append([]byte{}, st.Parts.Payload...), 0x00), st.Parts.Signature)))
+		f.Add(icbor.Encode(icose.Envelope([]byte{0xa0}, icbor.Map(icbor.P(icbor.U(1), icbor.I(alg))), st.Parts.Payload, st.Parts.Signature)))
+	}
+	f.Fuzz(func(t *testing.T, data []byte) {
+		if len(data) > 1<<14 {
+			return
+		}
+		for _, o := range origs {
+			if msg, _ := c02Judge(o, data); msg != "" {
+				t.Fatalf("C02 violated: %s", msg)
+			}
+		}
+	})
+}
